@@ -196,7 +196,47 @@ def streams(ctx):
         out.append(('max:getpeers+hello%d+inv0' % L, small_frames['getpeers'] + big + small_frames['inv0']))
         if not ctx.quick:
             out.append(('max:hello%d+hello%d' % (L, L), big + big))
+    # large frames (bodies beyond 4 KiB / 64 KiB / 1 MiB: several transport reads each, any buffering strategy that depends
+    # on the size is exercised), alone, first and last in the stream; explored under the cut set of large_cuts()
+    def inv_of(nitems, mid):
+        m = M.InventoryMessage([M.InventoryItem(M.DATA_BLOCK, struct.pack(">I", i) * 8) for i in range(nitems)])
+        return M.MessageHeader(1_700_000_000, mid, 0, 99).serialize() + m.serialize()
+    for nitems in (150, 2100) + (() if ctx.quick else (33000,)):
+        big = frame(inv_of(nitems, 5))
+        out.append(('large:inv%d' % nitems, big))
+        out.append(('large:getpeers+inv%d' % nitems, small_frames['getpeers'] + big))
+        out.append(('large:inv%d+getpeers' % nitems, big + small_frames['getpeers']))
     return out
+
+
+def large_cuts(stream):
+    """cut set for streams too long for all cuts: whole; the node's own read pattern (1024-byte reads) and 4096 / 65536-byte
+    reads; every single cut at a position next to a frame boundary, the 12 bytes after it, a power of two (+-1, also
+    counted from the start of each frame body) or the end; and each of those combined with a cut one byte before the end"""
+    n = len(stream)
+    starts = []
+    pos = 0
+    while pos + 8 <= n and stream[pos:pos + 4] == MAGIC:
+        starts.append(pos)
+        pos += 8 + struct.unpack(">I", stream[pos + 4:pos + 8])[0]
+    marks = set()
+    for st in starts + [n]:
+        for d in range(-2, 13):
+            marks.add(st + d)
+        for k in range(2, 22):
+            for d in (-1, 0, 1):
+                marks.add(st + 8 + (1 << k) + d)
+                marks.add((1 << k) + d)
+    marks = sorted(m for m in marks if 0 < m < n)
+    yield ()
+    for step in (1024, 4096, 65536):
+        yield tuple(range(step, n, step))
+        yield tuple(range(step - 7, n, step))
+    for a in marks:
+        yield (a,)
+    for a in marks:
+        if a < n - 1:
+            yield (a, n - 1)
 
 
 def _worker(arg):
@@ -209,7 +249,7 @@ def _worker(arg):
     n = 0
     outcomes = set()
     for mode in ('receiver', 'peer'):
-        for cuts in all_cuts(len(stream), three and mode == 'receiver'):
+        for cuts in (large_cuts(stream) if name.startswith('large:') else all_cuts(len(stream), three and mode == 'receiver')):
             n += 1
             got, at, exc = run_cut(stream, cuts, mode)
             # the raising read must be the one that delivers the refusal byte
@@ -241,7 +281,7 @@ def run(ctx):
     MAXLEN = netparams.MAX_MESSAGE_SIZE
     sts = streams(ctx)
     maxlen3 = 330 if ctx.quick else 520
-    jobs = [(nm, s, len(s) <= maxlen3 or nm.startswith('max:hello')) for nm, s in sts]
+    jobs = [(nm, s, (len(s) <= maxlen3 or nm.startswith('max:hello')) and not nm.startswith('large:')) for nm, s in sts]
     if ctx.seed:
         import random
         random.Random(ctx.seed).shuffle(jobs)
@@ -260,7 +300,9 @@ def run(ctx):
         'distinct_outcomes': sum(r[4] for r in res),
         'rule': "states = streams; transitions = (stream, cut) executions, each compared with the reference framer: whole, "
                 "bytewise, every 2-way cut (also with an empty read), every 3-way cut for streams <= %d bytes; through "
-                "MessageReceiver.receive and through ConnectedRemotePeer.handle_receive_data" % maxlen3,
+                "MessageReceiver.receive and through ConnectedRemotePeer.handle_receive_data; frames of 5 KB / 71 KB (thorough: "
+                "1.1 MB) alone, first and last in a stream under 1024/4096/65536-byte reads and every single cut next to a frame "
+                "boundary, a power of two or the end" % maxlen3,
     })
 
 
